@@ -64,7 +64,10 @@
 (*           read one after the other in a fresh process: trees for the        *)
 (*           documents of the subset, SafeOutcomes for the others, and equal   *)
 (*           observations for equal files whatever was read before             *)
-(*           ("ReadSeq"); the same files on 4 threads at once ("ReadThreads"). *)
+(*           ("ReadSeq"); the same files on 4 threads at once ("ReadThreads"); *)
+(*           a formula-defined long history in a process limited to 256 open   *)
+(*           files ("ReadRep": empty file x 300, malformed file x 300, valid   *)
+(*           document).  Every call leaves the open files alone (FdDelta).     *)
 (*                                                                             *)
 (* Laws:                                                                       *)
 (*   ByteLaw     a document of the "bytes" family parses to exactly that        *)
@@ -475,13 +478,22 @@ ThreadCase(r) ==      \* 4 threads; thread t reads the pool rotated by r + 2 t
   LET docs(t) == [i \in 1..Len(PoolSeq) |-> PoolSeq[1 + Md(i + r + 2 * t, Len(PoolSeq))]] IN
   [a |-> "ReadThreads", arg |-> [threads |-> [t \in 1..4 |-> [i \in 1..Len(PoolSeq) |-> Join(docs(t)[i])]], rounds |-> 40], cls |-> "",
    exp |-> [threads |-> [t \in 1..4 |-> [i \in 1..Len(PoolSeq) |-> StepExp(docs(t)[i])]], distinct |-> 1]]
+\* a long history defined by formula: ReadRep(file, n) = the same file n times.  In a process that may hold 256 descriptors:
+\* the empty file 300 times, a malformed file 300 times (the throwing path), then a valid document - every call answers as
+\* the first one did, leaves the open files alone, and the valid document is read faithfully
+RepCase ==
+  LET parts == << [doc |-> PoolSeq[1], n |-> 300], [doc |-> PoolSeq[4], n |-> 300], [doc |-> PoolSeq[7], n |-> 2] >> IN
+  [a |-> "ReadRep", arg |-> [nofile |-> 256, parts |-> [k \in DOMAIN parts |-> [doc |-> Join(parts[k].doc), n |-> parts[k].n]]], cls |-> "",
+   exp |-> [nofile |-> 256, fd_delta_total |-> FdDelta,
+            parts |-> [k \in DOMAIN parts |-> [first |-> StepExp(parts[k].doc), reads |-> parts[k].n, distinct |-> 1,
+                                               fd_delta_min |-> FdDelta, fd_delta_max |-> FdDelta]]]]
 HistorySlice(file) ==
   \E Q \in {UNION {[1..k -> 1..Len(PoolSeq)] : k \in 1..3}} :
-     ndJsonSerialize(file, SetToSeq({SeqCase(q) : q \in Q} \cup {ThreadCase(r) : r \in 0..2}))
+     ndJsonSerialize(file, SetToSeq({SeqCase(q) : q \in Q} \cup {ThreadCase(r) : r \in 0..2} \cup {RepCase}))
      /\ PrintT(<<"xmlgen", "history", "sequences", Cardinality(Q)>>)
 
 \* ---------------------------------------------------------------------------
-PolicyCase == [a |-> "Policy", arg |-> [what |-> "any file"], cls |-> "", exp |-> [outcomes |-> SetToSeq(SafeOutcomes)]]
+PolicyCase == [a |-> "Policy", arg |-> [what |-> "any file"], cls |-> "", exp |-> [outcomes |-> SetToSeq(SafeOutcomes), fd_delta |-> FdDelta]]
 
 Do(i) ==
   LET sl == SliceSeq[i]
